@@ -1,4 +1,4 @@
-"""C09 -- computing changes is pure; performing touches only what was announced (R09.1-R09.7)."""
+"""C09 -- computing changes is pure; performing touches only what was announced (R09.1-R09.8)."""
 from __future__ import annotations
 
 import ast
@@ -20,7 +20,8 @@ EXPLANATION = (
     "constructed by a refactoring has provenance CALLER or PROJECT (flow-insensitive provenance lattice, sanitised by "
     "a dominating equality/membership test against a clean value), never a resource derived from an inferred object "
     "(which may live outside the project).  R09.6: explicit raises in the refactoring modules raise RopeError "
-    "subclasses; no assert tests the analysed program's AST.  R09.7: every element that enters the project's cached file listing (what project-wide refactorings iterate) is dominated by a negative is_ignored test of that element.  Implicit internal exceptions are not decided."
+    "subclasses; no assert tests the analysed program's AST.  R09.7: every element that enters the project's cached file listing (what project-wide refactorings iterate) is dominated by a negative is_ignored test of that element.  R09.8: the 'inside this folder / inside the project root' tests compare "
+    "paths with a prefix that ends in the separator.  Implicit internal exceptions are not decided."
 )
 ASSUMPTIONS = [
     "callee resolution without a type checker: see DESIGN.md section 2 (E2)",
@@ -277,6 +278,7 @@ def check(ctx, res) -> None:
     _provenance(ctx, res)
     _typed_refusals(ctx, res)
     common.file_list_filter_rule(ctx, res, "R09.7")
+    common.prefix_boundary_rule(ctx, res, "R09.8", ["rope.base.resources.Folder.contains", "rope.base.libutils.relative"])
 
 
 def _fixture_control(ctx, res) -> None:
